@@ -723,14 +723,25 @@ def parseUser (line : Text) : Option User :=
 def renderGroup (g : Group) : Text :=
   g.name ++ ':' :: (g.password ++ ':' :: (natToDec g.gid ++ ':' :: (joinWith [','] g.members ++ ['\n'])))
 
-/-- `GroupEntry.Parse` -/
-def parseGroup (line : Text) : Option Group :=
+/-- the member field of a group line: `ge.Members = nil; if parts[3] != "" { ge.Members =
+strings.Split(parts[3], ",") }` (after the repair of F16e) -/
+def splitMembers (mem : Text) : List Text := if mem = [] then [] else splitOnChar ',' mem
+
+/-- `GroupEntry.Parse`, generic in the reading of the member field -/
+def parseGroupWith (members : Text → List Text) (line : Text) : Option Group :=
   match splitOnChar ':' (trimSpace line) with
   | [n, pw, gid, mem] =>
     match parseIntB 10 gid with
-    | some g => some ⟨n, pw, toU32 g, splitOnChar ',' mem⟩
+    | some g => some ⟨n, pw, toU32 g, members mem⟩
     | none => none
   | _ => none
+
+/-- `GroupEntry.Parse` -/
+def parseGroup (line : Text) : Option Group := parseGroupWith splitMembers line
+
+/-- the expression of the pinned tree before the repair of F16e (`ge.Members = strings.Split(parts[3], ",")`
+unconditionally: an empty field is one empty member), kept for the witnesses -/
+def pinnedParseGroup (line : Text) : Option Group := parseGroupWith (splitOnChar ',') line
 
 def mapAllOpt {α β : Type} (f : α → Option β) : List α → Option (List β)
   | [] => some []
@@ -747,6 +758,7 @@ def loadWith {α : Type} (parse : Text → Option α) (t : Text) : Option (List 
 
 def loadUsers : Text → Option (List User) := loadWith parseUser
 def loadGroups : Text → Option (List Group) := loadWith parseGroup
+def pinnedLoadGroups : Text → Option (List Group) := loadWith pinnedParseGroup
 def writeUsers (us : List User) : Text := us.flatMap renderUser
 def writeGroups (gs : List Group) : Text := gs.flatMap renderGroup
 
